@@ -39,7 +39,11 @@ type bsEvent struct {
 	H   int    `json:"h"`
 	ID  int    `json:"id"`
 	Set []int  `json:"set"`
+	// processed events: the number of the source connection (RequestBlock call) whose download did it
+	Node int `json:"node"`
 }
+
+type bsNodeKey struct{}
 
 type bsBlock struct {
 	id     int
@@ -61,6 +65,9 @@ type bsWorld struct {
 	nextID  int
 	events  []bsEvent
 	lastReq [2]int
+	nodes   []*bsNode
+	serving map[int]int           // per block id: sources currently working on it
+	gates   map[int]chan struct{} // per block id: closed when a second source is asked (simultaneous scenario)
 	fail    map[int][]string // per block id: outcomes of successive RequestBlock calls before it is served
 	hold    map[int]chan struct{}
 	intr    chan interface{}
@@ -80,9 +87,13 @@ type bsProcessor struct {
 }
 
 func (p *bsProcessor) ProcessCoinbaseTx(ctx context.Context, bh bitcoin.Hash32, tx *wire.MsgTx) error {
+	seq := 0
+	if n, ok := ctx.Value(bsNodeKey{}).(*bsNode); ok {
+		seq = n.seq
+	}
 	p.w.mu.Lock()
 	if b, ok := p.w.byHash[bh]; ok {
-		p.w.events = append(p.w.events, p.w.stamp(bsEvent{Ev: "processed", H: b.height, ID: b.id}))
+		p.w.events = append(p.w.events, p.w.stamp(bsEvent{Ev: "processed", H: b.height, ID: b.id, Node: seq}))
 	} else {
 		p.w.events = append(p.w.events, bsEvent{Ev: "processed", H: -1, ID: -1})
 	}
@@ -92,6 +103,7 @@ func (p *bsProcessor) ProcessCoinbaseTx(ctx context.Context, bh bitcoin.Hash32, 
 
 type bsNode struct {
 	id        uuid.UUID
+	seq       int
 	cancelled chan struct{}
 	once      sync.Once
 }
@@ -124,18 +136,59 @@ func (w *bsWorld) RequestBlock(ctx context.Context, hash bitcoin.Hash32, handler
 		w.fail[b.id] = q[1:]
 	}
 	hold := w.hold[b.id]
-	w.mu.Unlock()
 	if outcome == "nonode" {
+		w.mu.Unlock()
 		return nil, bitcoin_reader.ErrNodeNotAvailable
 	}
+	// a source asked while another one is still working on the same block
+	second := w.serving[b.id] > 0
+	if bsSimultaneous && !second {
+		outcome = "slow"
+	}
+	w.serving[b.id]++
+	gate := w.gates[b.id]
+	if gate == nil {
+		gate = make(chan struct{})
+		w.gates[b.id] = gate
+	}
+	w.mu.Unlock()
 	node := &bsNode{id: uuid.New(), cancelled: make(chan struct{})}
+	w.mu.Lock()
+	w.nodes = append(w.nodes, node)
+	node.seq = len(w.nodes)
+	w.mu.Unlock()
+	ctx = context.WithValue(ctx, bsNodeKey{}, node)
 	w.wg.Add(1)
 	go func() {
 		defer w.wg.Done()
-		if outcome == "slow" {
+		defer func() {
+			w.mu.Lock()
+			w.serving[b.id]--
+			w.mu.Unlock()
+		}()
+		if second && bsSimultaneous {
+			// dedicated scenario: this source and the slow one before it deliver at the same instant
+			w.mu.Lock()
+			select {
+			case <-gate:
+			default:
+				close(gate)
+			}
+			w.mu.Unlock()
+		} else if second {
+			// the other source is ahead: this one delivers only if nobody cancels it in 300 ms
+			select {
+			case <-time.After(300 * time.Millisecond):
+			case <-node.cancelled:
+				return
+			case <-w.intr:
+				return
+			}
+		} else if outcome == "slow" {
 			// slower than the block manager's request delay: a second node is asked meanwhile
 			select {
 			case <-time.After(40 * time.Millisecond):
+			case <-gate:
 			case <-node.cancelled:
 				return
 			case <-w.intr:
@@ -189,8 +242,12 @@ func (w *bsWorld) newBlock(height int, prev bitcoin.Hash32, heavy bool) *bsBlock
 
 var bsConc = 1
 
+// bsSimultaneous: the scenario of known finding F-C05-1 - two sources deliver the same block at the same instant.
+var bsSimultaneous = false
+
 func newBsWorld(n, start int, processed []int, firstID int) *bsWorld {
-	w := &bsWorld{byHash: map[bitcoin.Hash32]*bsBlock{}, fail: map[int][]string{}, hold: map[int]chan struct{}{}, nextID: 1}
+	w := &bsWorld{byHash: map[bitcoin.Hash32]*bsBlock{}, fail: map[int][]string{}, hold: map[int]chan struct{}{}, nextID: 1,
+		serving: map[int]int{}, gates: map[int]chan struct{}{}}
 	w.ctx = logger.ContextWithNoLogger(context.Background())
 	w.t0 = time.Now()
 	hcfg := headers.DefaultConfig()
@@ -241,6 +298,24 @@ func (w *bsWorld) waitIdle(d time.Duration) bool {
 		return true
 	case <-time.After(d):
 		return false
+	}
+}
+
+// waitSources waits until no source is working on a block any more (a source that was asked while
+// another one was ahead returns when it is cancelled, or delivers after 300 ms if nobody cancels it).
+func (w *bsWorld) waitSources(d time.Duration) {
+	deadline := time.Now().Add(d)
+	for time.Now().Before(deadline) {
+		busy := 0
+		w.mu.Lock()
+		for _, n := range w.serving {
+			busy += n
+		}
+		w.mu.Unlock()
+		if busy == 0 {
+			return
+		}
+		time.Sleep(200 * time.Microsecond)
 	}
 }
 
@@ -308,7 +383,23 @@ func bsRound(sc *bsScenario) string {
 
 // ---------------------------------------------------------------------------- traces (code -> spec)
 
+// cancelledNodes: the source connections whose request the block manager cancelled (at any time).
+func (w *bsWorld) cancelledNodes() []int {
+	r := []int{}
+	w.mu.Lock()
+	defer w.mu.Unlock()
+	for _, n := range w.nodes {
+		select {
+		case <-n.cancelled:
+			r = append(r, n.seq)
+		default:
+		}
+	}
+	return r
+}
+
 type bsTrace struct {
+	Cancelled []int               `json:"cancelled_nodes"`
 	ID        int                 `json:"id"`
 	N         int                 `json:"n"`
 	Start     int                 `json:"start"`
@@ -401,6 +492,7 @@ func bsTraceOne(id int, seed int64, orphan bool) bsTrace {
 	if !w.waitIdle(8 * time.Second) {
 		tr.Note = "the synchronisation thread did not finish within 8 s"
 	}
+	w.waitSources(time.Second)
 	w.log(bsEvent{Ev: "idle", Set: w.processedSet()})
 
 	// a reorganisation after the rounds have completed: the blocks of the new best chain above the fork
@@ -423,12 +515,14 @@ func bsTraceOne(id int, seed int64, orphan bool) bsTrace {
 		if !w.waitIdle(8 * time.Second) {
 			tr.Note = "the synchronisation thread did not finish within 8 s of the late reorganisation"
 		}
+		w.waitSources(time.Second)
 		w.log(bsEvent{Ev: "idle", Set: w.processedSet()})
 	}
 
 	w.mu.Lock()
 	tr.Events = append([]bsEvent{}, w.events...)
 	w.mu.Unlock()
+	tr.Cancelled = w.cancelledNodes()
 	for i := range tr.Events {
 		if tr.Events[i].Set == nil {
 			tr.Events[i].Set = []int{}
@@ -489,6 +583,7 @@ func bsOrphan(id int, seed int64) bsTrace {
 	w.mu.Lock()
 	tr.Events = append([]bsEvent{}, w.events...)
 	w.mu.Unlock()
+	tr.Cancelled = w.cancelledNodes()
 	for i := range tr.Events {
 		if tr.Events[i].Set == nil {
 			tr.Events[i].Set = []int{}
@@ -552,8 +647,10 @@ func bsyMain(args []string) int {
 	out := fs.String("out", "", "trace output")
 	workers := fs.Int("workers", 8, "workers")
 	conc := fs.Int("conc", 1, "concurrent block requests of the block manager")
+	simul := fs.Bool("simul", false, "with -conc 2: a second source delivers at the same instant as the slow first one")
 	fs.Parse(args)
 	bsConc = *conc
+	bsSimultaneous = *simul
 	switch *mode {
 	case "rounds":
 		type div struct {
